@@ -436,13 +436,13 @@ class Sym:
 
     def sin(s):
         r = dag.fn("sin", s.n)
-        if r.op == "fn" and r.args[0] == "sin" and Engine.strict_trig:
+        if r.op == "fn" and r.args[0] == "sin" and Engine.strict_trig and s.n.op != "const":
             raise NotEncodable(f"sin of a non-angle expression {s!r}")
         return Sym(r)
 
     def cos(s):
         r = dag.fn("cos", s.n)
-        if r.op == "fn" and r.args[0] == "cos" and Engine.strict_trig:
+        if r.op == "fn" and r.args[0] == "cos" and Engine.strict_trig and s.n.op != "const":
             raise NotEncodable(f"cos of a non-angle expression {s!r}")
         return Sym(r)
 
